@@ -185,6 +185,8 @@ class TokCfg:
     def value_of(self, term, lexeme):
         if term == "STR":
             return lexeme[1:-1]
+        if term == "TEXT":
+            return lexeme[3:-3]
         return lexeme
 
 
@@ -225,6 +227,16 @@ TOKCFGS = [
         [""],
         synonyms={'A': 'a', 'B': 'b'},
         skip_tokens=set(),
+    ),
+    TokCfg(
+        "multi-line-blocks",
+        # a span token whose opening group has no synonym: the group name itself is the grammar's terminal
+        r"(?P<SPACE>\s+)|(?P<TEXT>''')|(?P<W>[a-z]+)|(?P<EQ>=)",
+        ['TEXT', 'WORD', '='],
+        {'TEXT': ["'''x y'''", "''''''", "'''p\nq = r'''", "''' '' '''"], 'WORD': ['a', 'bc'], '=': ['=']},
+        [" ", "\n", "  "],
+        synonyms={'W': 'WORD', 'EQ': '='},
+        span_matchers={'TEXT': r"(?P<END_TEXT>(.|\n)*?)'''"},
     ),
     TokCfg(
         "minus-by-context",
